@@ -99,8 +99,24 @@ def analyse(P, body):
     violations = []
     seen_v = set()
 
+    def check_fragment_used(bb, buf_now, variant, ext, pre, line):
+        """a First/Middle/Last fragment that belongs to the record being assembled must have been appended before the
+        reader moves on to the next physical record (or returns)"""
+        if variant in ("Middle", "Last") and pre == "PARTIAL" and not ext:
+            key = (bb, "dropped", variant)
+            if key not in seen_v:
+                seen_v.add(key)
+                violations.append({"line": line, "state": "DROPPED", "variant": variant,
+                                   "detail": "a %s fragment of the record being assembled can be skipped without being appended (the record is lost or truncated)" % variant})
+        if variant == "First" and not ext:
+            key = (bb, "dropped", variant)
+            if key not in seen_v:
+                seen_v.add(key)
+                violations.append({"line": line, "state": "DROPPED", "variant": variant,
+                                   "detail": "a First fragment can be skipped without being appended (the start of the record is lost)"})
+
     def transfer(bb, us, phase, data):
-        buf, pending, variant = us
+        buf, pending, variant, ext, pre = us
         if phase == "stmts":
             # buffer re-initialisation by assignment of a fresh Vec (vec![] lowers to a call; `= Vec::new()` too)
             if bb in ret_checks:
@@ -121,14 +137,17 @@ def analyse(P, body):
                             seen_v.add(key)
                             violations.append({"line": line, "state": buf, "variant": variant,
                                                "detail": "a single fragment's data is returned as a record under fragment type %s" % variant})
+                check_fragment_used(bb, buf, variant, ext, pre, line)
             return us
         lab, tg = data
         t = body.term(bb)
         if (bb, tg) in var_edges and var_edges[(bb, tg)] is not None:
             variant = var_edges[(bb, tg)]
+            pre = buf if not pending else "PENDING"
             if pending:
                 buf = apply(variant, buf)
                 pending = False
+                ext = True
         if (bb, tg) in err_edges:
             # the physical record could not be delivered: whatever follows continues without this fragment
             if buf == "PARTIAL":
@@ -136,11 +155,15 @@ def analyse(P, body):
         if t["k"] == "call" and lab == "ret":
             nm = strip_generics(t.get("resolved") or t.get("callee"))
             if bb in phys_bbs:
+                check_fragment_used(bb, buf, variant, ext, pre, t.get("line"))
                 variant = None
                 pending = False
+                ext = False
+                pre = None
             elif nm in EXTENDERS and t["args"] and (roots(body, t["args"][0]) & buffers):
                 if buf == "BROKEN":
                     buf = "DIRTY"
+                ext = True
                 if variant is not None:
                     buf = apply(variant, buf)
                 else:
@@ -151,11 +174,11 @@ def analyse(P, body):
             elif nm in ("std::vec::Vec::new", "std::vec::from_elem", "std::vec::Vec::with_capacity") and not t["dest"]["p"] and t["dest"]["l"] in buffers:
                 buf = "EMPTY"
                 pending = False
-        return (buf, pending, variant)
+        return (buf, pending, variant, ext, pre)
 
     explored = 0
     try:
-        seen, _ = body.explore(("EMPTY", False, None), transfer)
+        seen, _ = body.explore(("EMPTY", False, None, False, None), transfer)
         explored = len(seen)
     except ExploreCap:
         violations.append({"line": body.line_lo, "state": "?", "variant": None, "detail": "exploration cap reached (fail closed)"})
